@@ -10,6 +10,14 @@
 //!      BEGIN/END lines in one marks file; brackets of different actors must not interleave;
 //!  (3) offline thread oracle over the truth log: one side-effects frame per mutating tool call, placed
 //!      after the tool's end and before the run's end, listing the changed files, in begin order.
+//! Early exits (layered on top of the base scenario from an independent random stream, so the base cases
+//! stay what they were): tasks are cancelled (`POST /tasks/{id}/cancel`) while still queued behind another
+//! mutation, a seeded delay after the spawn, once running, after they finished, and twice; bash tools
+//! get a `timeout_ms` shorter than their command; session handles are dropped (`POST /sessions/{id}/cancel`)
+//! while their run is queued or running. None of these may let a command run beside another mutation:
+//! (1) and (2) judge them like every other execution, and (2b) crosses the two observations: a shell
+//! command's BEGIN..END bracket (CLOCK_MONOTONIC) must not intersect the ws.exec.begin..end interval of a
+//! mutating execution of ANOTHER actor (catches a command that outlives its tool's lock).
 
 use crate::c06::Heartbeat;
 use crate::fixture::{runtime, wait_for, App, Store};
@@ -74,6 +82,9 @@ pub struct Begin {
     pub clock: u64,
     pub actor: String,
     pub tool: String,
+    /// CLOCK_MONOTONIC at the hook (the lock, if any, is held at that moment) / at the matching end
+    pub begin_ns: u128,
+    pub end_ns: Option<u128>,
 }
 
 #[derive(Default)]
@@ -97,6 +108,8 @@ struct MonState {
     hold_ms: u64,
     side_effect_points: u64,
     sfx_holder: bool,
+    /// directed cases: park before the side-effects append this long (default: hold_ms clamped to 10..25)
+    sfx_ms: Option<u64>,
     sfx_holds: u64,
     sfx_holds_overtaken: u64,
 }
@@ -114,12 +127,13 @@ impl Monitor {
         })
     }
 
-    fn arm(&self, seed: u64, hold_num: u64, hold_ms: u64) {
+    fn arm(&self, seed: u64, hold_num: u64, hold_ms: u64, sfx_ms: Option<u64>) {
         let mut g = self.st.lock().unwrap();
         *g = MonState::default();
         g.rng = Some(Rng::new(seed));
         g.hold_num = hold_num;
         g.hold_ms = hold_ms;
+        g.sfx_ms = sfx_ms;
     }
 
     /// wake every holder (watchdog path)
@@ -132,9 +146,19 @@ impl Monitor {
         self.cv.notify_all();
     }
 
+    /// (some mutating execution of another actor is in flight, `actor` has begun, `actor` is in flight)
+    fn phase_of(&self, actor: &str) -> (bool, bool, bool) {
+        let g = self.st.lock().unwrap();
+        let other = g.inflight.iter().any(|(k, v)| v.0 && k.split_once(' ').map(|x| x.0).unwrap_or(k) != actor);
+        let begun = g.begins.iter().any(|b| b.actor == actor);
+        let running = g.inflight.keys().any(|k| k.split_once(' ').map(|x| x.0).unwrap_or(k) == actor);
+        (other, begun, running)
+    }
+
     fn on_point(&self, name: &'static str, ctx: &str) {
         match name {
             "ws.exec.begin" => {
+                let t_ns = now_ns();
                 let (actor, tool) = ctx.split_once(' ').unwrap_or((ctx, ""));
                 let mutating = !is_read_only(tool);
                 let mut g = self.st.lock().unwrap();
@@ -157,16 +181,20 @@ impl Monitor {
                 g.inflight.insert(ctx.to_string(), (mutating, clock));
                 let nmut = g.inflight.values().filter(|v| v.0).count();
                 g.max_mutating = g.max_mutating.max(nmut);
-                g.begins.push(Begin { clock, actor: actor.to_string(), tool: tool.to_string() });
+                g.begins.push(Begin { clock, actor: actor.to_string(), tool: tool.to_string(), begin_ns: t_ns, end_ns: None });
                 self.cv.notify_all();
                 // seeded hold: stay "in the tool" until somebody else begins, or H ms
+                // (not while a run is parked before its side-effects append: a mutation that can begin then
+                // must get the chance to finish and log first - with the lock held this never happens)
                 let (num, ms) = (g.hold_num, g.hold_ms);
-                let hold = ms > 0 && g.rng.as_mut().map(|r| r.below(8) < num).unwrap_or(false);
+                let hold = ms > 0 && !(mutating && g.sfx_holder) && g.rng.as_mut().map(|r| r.below(8) < num).unwrap_or(false);
                 if hold {
                     g.holds += 1;
                     let seen = g.begin_seen;
                     let deadline = Instant::now() + Duration::from_millis(ms);
-                    loop {
+                    // block_in_place: the worker's run queue (incl. the task this one has just woken, which
+                    // sits in the worker's LIFO slot and cannot be stolen) moves on while this thread is parked
+                    tokio::task::block_in_place(move || loop {
                         if g.begin_seen != seen {
                             g.holds_cut_short += 1;
                             break;
@@ -177,15 +205,21 @@ impl Monitor {
                         }
                         let (ng, _) = self.cv.wait_timeout(g, deadline - now).unwrap();
                         g = ng;
-                    }
+                    });
                 }
             }
             "ws.exec.end" => {
+                let t_ns = now_ns();
                 let mut g = self.st.lock().unwrap();
                 g.clock += 1;
                 g.ends += 1;
-                if g.inflight.remove(ctx).is_none() {
-                    g.end_without_begin += 1;
+                match g.inflight.remove(ctx) {
+                    None => g.end_without_begin += 1,
+                    Some((_, bclock)) => {
+                        if let Some(b) = g.begins.iter_mut().rev().find(|b| b.clock == bclock) {
+                            b.end_ns = Some(t_ns);
+                        }
+                    }
                 }
             }
             "ws.side_effects.before_append" => {
@@ -195,13 +229,16 @@ impl Monitor {
                 let mut g = self.st.lock().unwrap();
                 g.side_effect_points += 1;
                 self.cv.notify_all();
-                let (num, ms) = (g.hold_num.max(3), g.hold_ms.clamp(10, 25));
+                let (num, ms) = (g.hold_num.max(3), g.sfx_ms.unwrap_or(g.hold_ms.clamp(10, 25)));
                 let hold = !g.sfx_holder && g.rng.as_mut().map(|r| r.below(8) < num).unwrap_or(false);
                 if hold {
                     g.sfx_holder = true;
                     g.sfx_holds += 1;
                     let seen = g.side_effect_points;
                     let deadline = Instant::now() + Duration::from_millis(ms);
+                    // block_in_place: a run woken by this one (it got the workspace lock this run released?)
+                    // sits in this worker's LIFO slot; it must be able to run while this thread is parked
+                    tokio::task::block_in_place(move || {
                     let mut overtaken = false;
                     loop {
                         if g.side_effect_points != seen {
@@ -219,8 +256,11 @@ impl Monitor {
                     if overtaken {
                         g.sfx_holds_overtaken += 1;
                         drop(g);
-                        std::thread::sleep(Duration::from_millis(3));
+                        // give the overtaker the time to write its frame first (loaded machine: generous;
+                        // costs nothing where the lock is held across the append, as nobody can overtake)
+                        std::thread::sleep(Duration::from_millis(30));
                     }
+                    });
                 }
             }
             _ => {}
@@ -296,8 +336,9 @@ fn start_provider(plans: Plans) -> Provider {
 pub enum Op {
     Write { path: String, content: String },
     Patch { files: Vec<String> },
-    /// `shell` = the registered alias of `bash` (same arguments)
-    Bash { mark: String, sleep_ms: u64, shell: bool },
+    /// `shell` = the registered alias of `bash` (same arguments); `timeout_ms` (tool envelopes only) is
+    /// shorter than the command: the tool call ends early, its command must not run on beside others
+    Bash { mark: String, sleep_ms: u64, shell: bool, timeout_ms: Option<u64> },
     Read { path: String },
     Ls,
     Grep,
@@ -343,7 +384,10 @@ impl Op {
         }
     }
     fn envelope(&self, env: &Env) -> String {
-        json!({"tool": self.name(), "args": self.args(env)}).to_string()
+        match self {
+            Op::Bash { timeout_ms: Some(t), .. } => json!({"tool": self.name(), "args": self.args(env), "timeout_ms": t}).to_string(),
+            _ => json!({"tool": self.name(), "args": self.args(env)}).to_string(),
+        }
     }
 }
 
@@ -367,7 +411,7 @@ fn gen_op(rng: &mut Rng, tag: &str, n: &mut u32, read_bias: u64) -> Op {
                 }
                 Op::Patch { files }
             }
-            _ => Op::Bash { mark: format!("sb-{tag}-{i}"), sleep_ms: 3 + rng.below(15), shell: rng.chance(1, 3) },
+            _ => Op::Bash { mark: format!("sb-{tag}-{i}"), sleep_ms: 3 + rng.below(15), shell: rng.chance(1, 3), timeout_ms: None },
         }
     }
 }
@@ -378,12 +422,56 @@ enum Actor {
     Checkpoint { thread: usize },
     Prompt { thread: usize, token: String, turns: Vec<Vec<Op>> },
     Plain { op: Op },
-    Task { mark: String, sleep_ms: u64 },
+    Task { mark: String, sleep_ms: u64, cancel: Option<Cancel> },
+}
+
+/// When the (first) cancel of a task is sent.
+#[derive(Clone, Copy, Debug, PartialEq)]
+enum CancelWhen {
+    /// spawn the task only once another mutation is seen in flight (bounded wait): it has to queue
+    QueuedBehind,
+    /// a delay after the spawn, whatever the task is doing by then
+    After,
+    /// once its execution began
+    Running,
+    /// after it reached its terminal state
+    Finished,
+}
+
+#[derive(Clone, Debug)]
+struct Cancel {
+    when: CancelWhen,
+    /// delay between the trigger of `when` and the cancel
+    us: u64,
+    /// a second cancel this long after the first
+    again_us: Option<u64>,
+    reason: bool,
+}
+
+impl Cancel {
+    fn shape(&self) -> String {
+        let w = match self.when {
+            CancelWhen::QueuedBehind => "queued",
+            CancelWhen::After => "after",
+            CancelWhen::Running => "running",
+            CancelWhen::Finished => "finished",
+        };
+        format!("{w}{}", if self.again_us.is_some() { "x2" } else { "" })
+    }
+}
+
+/// Early exits layered on one actor's session run.
+#[derive(Clone, Debug, Default)]
+struct Extra {
+    /// drop the session handle (`POST /sessions/{id}/cancel`) this long after the input was accepted
+    session_cancel_us: Option<u64>,
 }
 
 impl Actor {
     fn shape(&self) -> String {
         match self {
+            Actor::Envelope { op: op @ Op::Bash { timeout_ms: Some(_), .. }, .. } => format!("env:{}+timeout", op.name()),
+            Actor::Plain { op: op @ Op::Bash { timeout_ms: Some(_), .. } } => format!("plain:{}+timeout", op.name()),
             Actor::Envelope { op, .. } => format!("env:{}", op.name()),
             Actor::Checkpoint { .. } => "checkpoint:create+rewind".into(),
             Actor::Prompt { turns, .. } => format!(
@@ -391,6 +479,7 @@ impl Actor {
                 turns.iter().map(|t| t.iter().map(|o| o.name()).collect::<Vec<_>>().join(",")).collect::<Vec<_>>().join("|")
             ),
             Actor::Plain { op } => format!("plain:{}", op.name()),
+            Actor::Task { cancel: Some(c), .. } => format!("task+cancel:{}", c.shape()),
             Actor::Task { .. } => "task".into(),
         }
     }
@@ -410,6 +499,11 @@ struct ActorOut {
     runs: Vec<RunRec>,
     task_ids: Vec<String>,
     errors: Vec<String>,
+    /// (task id, mark id, a cancel was sent)
+    task_marks: Vec<(String, String, bool)>,
+    /// phase of the task at the moment each cancel was sent (as seen by the in-flight monitor) + HTTP status
+    cancels: Vec<(&'static str, u16)>,
+    session_cancels: Vec<u16>,
 }
 
 async fn wait_file(p: std::path::PathBuf, secs: u64) -> bool {
@@ -424,22 +518,65 @@ async fn post_thread(app: &App, thread: &str, content: &str) -> Result<String, S
     Ok(v["session_id"].as_str().unwrap_or("").to_string())
 }
 
-async fn run_actor(app: App, store_data: std::path::PathBuf, ws: std::path::PathBuf, env: Arc<Env>, threads: Vec<String>, actor: Actor, delay_us: u64) -> ActorOut {
+/// Drop the session handle while its run is queued / running. The run itself goes on (or, should an
+/// implementation stop it, ends early): either way its executions stay subject to every oracle.
+async fn session_cancel(app: &App, sid: &str, extra: &Extra, out: &mut ActorOut) {
+    if let Some(us) = extra.session_cancel_us {
+        tokio::time::sleep(Duration::from_micros(us)).await;
+        let (st, _) = app.call("POST", &format!("/sessions/{sid}/cancel"), None).await;
+        out.session_cancels.push(st);
+    }
+}
+
+async fn send_cancel(app: &App, mon: &Monitor, task_id: &str, reason: bool, out: &mut ActorOut) {
+    let (other, begun, running) = mon.phase_of(task_id);
+    let phase = match (begun, running, other) {
+        (true, true, _) => "running",
+        (true, false, _) => "finished",
+        (false, _, true) => "queued_behind_a_mutation_in_flight",
+        (false, _, false) => "not_begun_nothing_in_flight",
+    };
+    let body = if reason { json!({"reason": "c11 early exit"}) } else { json!({}) };
+    let (st, _) = app.call("POST", &format!("/tasks/{task_id}/cancel"), Some(&body)).await;
+    out.cancels.push((phase, st));
+    if st != 202 {
+        out.errors.push(format!("POST /tasks/../cancel -> {st}"));
+    }
+}
+
+#[allow(clippy::too_many_arguments)]
+async fn run_actor(
+    app: App,
+    store_data: std::path::PathBuf,
+    ws: std::path::PathBuf,
+    env: Arc<Env>,
+    threads: Vec<String>,
+    actor: Actor,
+    delay_us: u64,
+    mon: Arc<Monitor>,
+    extra: Extra,
+) -> ActorOut {
     let mut out = ActorOut::default();
     tokio::time::sleep(Duration::from_micros(delay_us)).await;
     match actor {
         Actor::Envelope { thread, op } => match post_thread(&app, &threads[thread], &op.envelope(&env)).await {
-            Ok(sid) => out.runs.push(RunRec { session_id: sid, thread: Some(threads[thread].clone()), ops: vec![op], checkpoint: false }),
+            Ok(sid) => {
+                out.runs.push(RunRec { session_id: sid.clone(), thread: Some(threads[thread].clone()), ops: vec![op], checkpoint: false });
+                session_cancel(&app, &sid, &extra, &mut out).await;
+            }
             Err(e) => out.errors.push(e),
         },
         Actor::Prompt { thread, token, turns } => {
             match post_thread(&app, &threads[thread], &format!("please do the planned work {token}")).await {
-                Ok(sid) => out.runs.push(RunRec {
-                    session_id: sid,
-                    thread: Some(threads[thread].clone()),
-                    ops: turns.into_iter().flatten().collect(),
-                    checkpoint: false,
-                }),
+                Ok(sid) => {
+                    out.runs.push(RunRec {
+                        session_id: sid.clone(),
+                        thread: Some(threads[thread].clone()),
+                        ops: turns.into_iter().flatten().collect(),
+                        checkpoint: false,
+                    });
+                    session_cancel(&app, &sid, &extra, &mut out).await;
+                }
                 Err(e) => out.errors.push(e),
             }
         }
@@ -455,15 +592,44 @@ async fn run_actor(app: App, store_data: std::path::PathBuf, ws: std::path::Path
                 out.errors.push(format!("POST input -> {st}"));
                 return out;
             }
-            out.runs.push(RunRec { session_id: sid, thread: None, ops: vec![op], checkpoint: false });
+            out.runs.push(RunRec { session_id: sid.clone(), thread: None, ops: vec![op], checkpoint: false });
+            session_cancel(&app, &sid, &extra, &mut out).await;
         }
-        Actor::Task { mark, sleep_ms } => {
+        Actor::Task { mark, sleep_ms, cancel } => {
+            if matches!(&cancel, Some(c) if c.when == CancelWhen::QueuedBehind) {
+                // spawn only once somebody else is mutating (bounded wait): the task has to queue
+                let m = mon.clone();
+                let _ = wait_for(Duration::from_millis(400), || if m.phase_of("").0 { Some(()) } else { None }).await;
+            }
             let cmd = format!("'{}' mark '{}' {} {}", env.exe, env.marks, mark, sleep_ms);
             let (st, v) = app.json("POST", "/tasks", Some(&json!({"tool":"bash","args":{"command":cmd}}))).await;
-            if st == 201 {
-                out.task_ids.push(v["task_id"].as_str().unwrap_or("").to_string());
-            } else {
+            if st != 201 {
                 out.errors.push(format!("POST /tasks -> {st}"));
+                return out;
+            }
+            let task_id = v["task_id"].as_str().unwrap_or("").to_string();
+            out.task_ids.push(task_id.clone());
+            out.task_marks.push((task_id.clone(), mark.clone(), cancel.is_some()));
+            if let Some(c) = cancel {
+                let reached = match c.when {
+                    CancelWhen::QueuedBehind | CancelWhen::After => true,
+                    CancelWhen::Running => {
+                        let m = mon.clone();
+                        let t = task_id.clone();
+                        wait_for(Duration::from_secs(10), || if m.phase_of(&t).1 { Some(()) } else { None }).await.is_some()
+                    }
+                    CancelWhen::Finished => wait_file(store_data.join("task_snapshots").join(format!("{task_id}.json")), 15).await,
+                };
+                if !reached {
+                    // the trigger never came (overloaded machine): cancel anyway, whatever phase that is
+                    out.cancels.push(("trigger_not_reached", 0));
+                }
+                tokio::time::sleep(Duration::from_micros(c.us)).await;
+                send_cancel(&app, &mon, &task_id, c.reason, &mut out).await;
+                if let Some(us) = c.again_us {
+                    tokio::time::sleep(Duration::from_micros(us)).await;
+                    send_cancel(&app, &mon, &task_id, !c.reason, &mut out).await;
+                }
             }
         }
         Actor::Checkpoint { thread } => {
@@ -533,12 +699,18 @@ pub fn run(cfg: &Cfg) -> i32 {
          artifact_fetch and checkpoint create+rewind envelopes posted to 1–2 threads, scripted-provider tool loops with \
          1–4 calls per turn, plain sessions) and 0–4 shell tasks; noise at ws.exec.begin/end and \
          ws.side_effects.before_append plus a seeded hold right after a begin is accounted (until another begin or H ms); \
-         first two cases are directed (all read-only with holds; all mutating with holds). A case is non-trivial when ≥2 \
+         first four cases are directed (all read-only with holds; all mutating with holds; tasks cancelled while queued behind \
+         long session commands; mixed mutations with tasks cancelled queued / after a delay / running / finished / twice and a \
+         bash tool that times out). 2/5 of the other cases get early exits layered on (own random stream): 2/3 of their tasks \
+         + 1–2 extra tasks are cancelled (when: queued behind a mutation seen in flight, seeded delay 0–80 ms after the spawn, \
+         once running, after the end; 1/4 twice) and sleep 50–300 ms, 1/4 of the bash envelopes get timeout_ms below their \
+         command's duration, 1/6 of the session handles are dropped (POST /sessions/{id}/cancel) mid-run. A case is non-trivial when ≥2 \
          mutating executions of different actors were in the case; distinct = hash of the sequence of (actor class, tool) \
          begins in observed order",
     );
     r.assume("hook points do not change behaviour beyond timing");
     r.assume("tool classification is the harness's own: read, ls, grep, artifact_fetch are read-only; everything else (incl. checkpoint envelopes and tasks) mutates");
+    r.assume("a shell command killed between its BEGIN and END mark (task cancelled, tool timed out) counts as ended for commands that begin later; its own BEGIN is judged like any other");
     r.assume("affected_paths is judged for successful write / apply_patch calls only; for bash the value is recorded, not judged (rip cannot know what a shell command touched)");
     r.max_samples = 5;
     let s = sched();
@@ -654,7 +826,7 @@ fn gen_actors(rng: &mut Rng, idx: u64, n_threads: usize, directed: Option<&str>)
                 let op = gen_op(rng, &format!("c{idx}a{a}"), &mut n, 0);
                 out.push(Actor::Envelope { thread: 0, op });
             }
-            out.push(Actor::Task { mark: format!("tk-c{idx}-0"), sleep_ms: 10 });
+            out.push(Actor::Task { mark: format!("tk-c{idx}-0"), sleep_ms: 10, cancel: None });
             out.push(Actor::Checkpoint { thread: 0 });
             out.push(Actor::Plain { op: Op::Write { path: format!("plain_c{idx}.txt"), content: "x".into() } });
             return out;
@@ -684,9 +856,108 @@ fn gen_actors(rng: &mut Rng, idx: u64, n_threads: usize, directed: Option<&str>)
         out.push(actor);
     }
     for t in 0..n_tasks {
-        out.push(Actor::Task { mark: format!("tk-c{idx}-{t}"), sleep_ms: 3 + rng.below(20) });
+        out.push(Actor::Task { mark: format!("tk-c{idx}-{t}"), sleep_ms: 3 + rng.below(20), cancel: None });
     }
     out
+}
+
+fn gen_cancel(x: &mut Rng, when: CancelWhen) -> Cancel {
+    let us = match when {
+        // biased to "soon": the task is still queued behind whoever holds the workspace
+        CancelWhen::QueuedBehind => [0u64, 300, 1_000, 3_000, 8_000, 20_000][x.usize(6)] + x.below(300),
+        CancelWhen::After => [0u64, 500, 2_000, 10_000, 30_000, 80_000][x.usize(6)] + x.below(500),
+        CancelWhen::Running => [0u64, 1_000, 5_000, 20_000][x.usize(4)] + x.below(500),
+        CancelWhen::Finished => x.below(3_000),
+    };
+    Cancel { when, us, again_us: if x.chance(1, 4) { Some(x.below(15_000)) } else { None }, reason: x.bool() }
+}
+
+/// Directed early-exit cases: the workspace is kept busy by sessions (long shell commands + holds) while
+/// tasks are spawned behind them and cancelled in every phase; one bash tool times out.
+fn gen_directed_early_exit(x: &mut Rng, idx: u64, which: &str) -> Vec<Actor> {
+    let mut out = Vec::new();
+    let bash = |a: u32, ms: u64, shell: bool| Op::Bash { mark: format!("sb-c{idx}a{a}-1"), sleep_ms: ms, shell, timeout_ms: None };
+    if which == "cancel_queued" {
+        out.push(Actor::Envelope { thread: 0, op: bash(0, 120 + x.below(60), false) });
+        out.push(Actor::Envelope { thread: 0, op: bash(1, 100 + x.below(60), true) });
+        out.push(Actor::Plain { op: bash(2, 80 + x.below(60), false) });
+        for t in 0..3u64 {
+            let mut c = gen_cancel(x, CancelWhen::QueuedBehind);
+            c.us = [1_000u64, 8_000, 25_000][t as usize] + x.below(2_000);
+            c.again_us = if t == 1 { Some(5_000) } else { None };
+            out.push(Actor::Task { mark: format!("tk-c{idx}-{t}"), sleep_ms: 150 + x.below(100), cancel: Some(c) });
+        }
+    } else {
+        out.push(Actor::Envelope { thread: 0, op: Op::Write { path: format!("w_c{idx}.txt"), content: "directed".into() } });
+        out.push(Actor::Envelope { thread: 0, op: Op::Patch { files: vec![format!("p_c{idx}_a.txt")] } });
+        out.push(Actor::Checkpoint { thread: 0 });
+        out.push(Actor::Envelope { thread: 0, op: bash(3, 60 + x.below(40), false) });
+        out.push(Actor::Plain {
+            op: Op::Bash { mark: format!("sbt-c{idx}a4-1"), sleep_ms: 100 + x.below(40), shell: false, timeout_ms: Some(5 + x.below(15)) },
+        });
+        out.push(Actor::Envelope { thread: 0, op: bash(5, 40 + x.below(40), true) });
+        for (t, when) in [CancelWhen::QueuedBehind, CancelWhen::After, CancelWhen::Running, CancelWhen::Finished, CancelWhen::QueuedBehind]
+            .into_iter()
+            .enumerate()
+        {
+            let mut c = gen_cancel(x, when);
+            if t == 4 {
+                c.again_us = Some(2_000);
+            }
+            let ms = if when == CancelWhen::Finished { 5 + x.below(10) } else { 120 + x.below(120) };
+            out.push(Actor::Task { mark: format!("tk-c{idx}-{t}"), sleep_ms: ms, cancel: Some(c) });
+        }
+    }
+    out
+}
+
+/// Early exits layered on a generated scenario (independent stream `x`): cancels for its tasks, extra
+/// cancelled tasks, a timeout on some bash envelopes, dropped session handles.
+fn add_early_exits(x: &mut Rng, idx: u64, actors: &mut Vec<Actor>) -> Vec<Extra> {
+    let pick_when = |x: &mut Rng| match x.below(10) {
+        0..=4 => CancelWhen::QueuedBehind,
+        5..=6 => CancelWhen::After,
+        7..=8 => CancelWhen::Running,
+        _ => CancelWhen::Finished,
+    };
+    let mut n_tasks = 0u64;
+    for a in actors.iter_mut() {
+        match a {
+            Actor::Task { sleep_ms, cancel, .. } => {
+                n_tasks += 1;
+                if x.chance(2, 3) {
+                    let when = pick_when(x);
+                    let c = gen_cancel(x, when);
+                    // long enough that a run without the lock would visibly overlap somebody
+                    *sleep_ms = if c.when == CancelWhen::Finished { 3 + x.below(15) } else { 50 + x.below(250) };
+                    *cancel = Some(c);
+                }
+            }
+            Actor::Envelope { op: Op::Bash { mark, sleep_ms, timeout_ms, .. }, .. } | Actor::Plain { op: Op::Bash { mark, sleep_ms, timeout_ms, .. } } => {
+                if x.chance(1, 4) {
+                    *mark = mark.replacen("sb-", "sbt-", 1);
+                    *sleep_ms = 60 + x.below(90);
+                    *timeout_ms = Some(2 + x.below(30));
+                }
+            }
+            _ => {}
+        }
+    }
+    for t in 0..1 + x.below(2) {
+        let when = pick_when(x);
+        let c = gen_cancel(x, when);
+        let ms = if c.when == CancelWhen::Finished { 3 + x.below(15) } else { 50 + x.below(250) };
+        actors.push(Actor::Task { mark: format!("tk-c{idx}-{}", n_tasks + t), sleep_ms: ms, cancel: Some(c) });
+    }
+    actors
+        .iter()
+        .map(|a| match a {
+            Actor::Envelope { .. } | Actor::Prompt { .. } | Actor::Plain { .. } if x.chance(1, 6) => {
+                Extra { session_cancel_us: Some([0u64, 500, 5_000, 30_000][x.usize(4)] + x.below(500)) }
+            }
+            _ => Extra::default(),
+        })
+        .collect()
 }
 
 fn scenario(cx: &mut Ctx, r: &mut Report, idx: u64, rng: &mut Rng) {
@@ -697,19 +968,47 @@ fn scenario(cx: &mut Ctx, r: &mut Report, idx: u64, rng: &mut Rng) {
     let directed = match idx {
         0 => Some("read_only"),
         1 => Some("mutating"),
+        2 => Some("cancel_queued"),
+        3 => Some("early_exit_mix"),
         _ => None,
     };
+    // the early-exit dimension draws from its own stream: the base scenario of a case index stays the same
+    let mut xrng = Rng::new(rng.clone().next_u64() ^ 0x0C11_EA51_E417_0001);
     let n_threads = 1 + rng.usize(2);
-    let actors = gen_actors(rng, idx, n_threads, directed);
-    let (hold_num, hold_ms) = match directed {
+    let mut actors = match directed {
+        Some(d @ ("cancel_queued" | "early_exit_mix")) => gen_directed_early_exit(&mut xrng, idx, d),
+        _ => gen_actors(rng, idx, n_threads, directed),
+    };
+    let (mut hold_num, mut hold_ms) = match directed {
         Some("read_only") => (8, 200),
         Some(_) => (8, 60),
         None => ([0u64, 2, 4, 8][rng.usize(4)], [5u64, 15, 40][rng.usize(3)]),
     };
+    let early = directed.is_none() && xrng.chance(2, 5);
+    let extras: Vec<Extra> = if early {
+        // whoever holds the workspace keeps it for a while: a task spawned meanwhile is really queued
+        hold_num = hold_num.max(4);
+        hold_ms = hold_ms.max(15);
+        add_early_exits(&mut xrng, idx, &mut actors)
+    } else {
+        actors.iter().map(|_| Extra::default()).collect()
+    };
+    let actors = actors;
+    // commands that may be left running by a tool that timed out: give them the time to show up
+    let orphan_wait_ms = actors
+        .iter()
+        .filter_map(|a| match a {
+            Actor::Envelope { op: Op::Bash { sleep_ms, timeout_ms: Some(_), .. }, .. } | Actor::Plain { op: Op::Bash { sleep_ms, timeout_ms: Some(_), .. } } => {
+                Some(*sleep_ms)
+            }
+            _ => None,
+        })
+        .fold(None, |acc: Option<(u64, usize)>, ms| Some((acc.map(|a| a.0).unwrap_or(0).max(ms), acc.map(|a| a.1).unwrap_or(0) + 1)));
     let noise_us = [0u64, 300, 1500, 4000][rng.usize(4)];
     let s = cx.s.clone();
     s.reset();
-    cx.mon.arm(rng.next_u64(), hold_num, hold_ms);
+    // all-mutating directed case: long enough for every queued mutation to run and log meanwhile
+    cx.mon.arm(rng.next_u64(), hold_num, hold_ms, if directed == Some("mutating") { Some(150) } else { None });
     let mon = cx.mon.clone();
     s.set_custom(Some(Arc::new(move |name, ctx| mon.on_point(name, ctx))));
     s.set_noise(
@@ -743,6 +1042,8 @@ fn scenario(cx: &mut Ctx, r: &mut Report, idx: u64, rng: &mut Rng) {
     let data = w.store.data.clone();
     let wsdir = w.store.ws.clone();
     let actors2 = actors.clone();
+    let mon2 = cx.mon.clone();
+    let marks2 = marks.clone();
     let (outs, quiet, threads) = cx.rt.block_on(async {
         let st = app.store();
         let mut threads = Vec::new();
@@ -755,8 +1056,8 @@ fn scenario(cx: &mut Ctx, r: &mut Report, idx: u64, rng: &mut Rng) {
             }
         }
         let mut joins = Vec::new();
-        for (a, d) in actors2.into_iter().zip(delays.into_iter()) {
-            joins.push(tokio::spawn(run_actor(app.clone(), data.clone(), wsdir.clone(), env.clone(), threads.clone(), a, d)));
+        for ((a, d), x) in actors2.into_iter().zip(delays.into_iter()).zip(extras.into_iter()) {
+            joins.push(tokio::spawn(run_actor(app.clone(), data.clone(), wsdir.clone(), env.clone(), threads.clone(), a, d, mon2.clone(), x)));
         }
         let mut outs = Vec::new();
         let mut stuck = false;
@@ -804,6 +1105,18 @@ fn scenario(cx: &mut Ctx, r: &mut Report, idx: u64, rng: &mut Rng) {
         })
         .await
         .is_some();
+        if let (true, Some((ms, n))) = (quiet, orphan_wait_ms) {
+            // every timed-out command has either written its END or had the time to (it may have been killed)
+            let _ = wait_for(Duration::from_millis(ms + 150), || {
+                let t = std::fs::read_to_string(&marks2).unwrap_or_default();
+                if t.lines().filter(|l| l.starts_with("END sbt-")).count() >= n {
+                    Some(())
+                } else {
+                    None
+                }
+            })
+            .await;
+        }
         (outs, quiet, threads)
     });
     s.set_custom(None);
@@ -821,9 +1134,14 @@ fn scenario(cx: &mut Ctx, r: &mut Report, idx: u64, rng: &mut Rng) {
     }
     r.eval();
     let shape: Vec<String> = actors.iter().map(|a| a.shape()).collect();
+    let cancels: Vec<String> = outs.iter().flat_map(|o| o.cancels.iter().map(|(p, st)| format!("{p}:{st}"))).collect();
     let witness = |detail: Value| {
-        json!({"case": idx, "actors": shape, "hold": [hold_num, hold_ms], "noise_us": noise_us, "threads": n_threads, "detail": detail})
+        json!({"case": idx, "actors": shape, "hold": [hold_num, hold_ms], "noise_us": noise_us, "threads": n_threads,
+               "task_cancels_sent_in_phase": cancels, "detail": detail})
     };
+    if early || matches!(directed, Some("cancel_queued" | "early_exit_mix")) {
+        r.count("cases_with_early_exits", 1);
+    }
     judge(cx, r, idx, &outs, &threads, log_start, &marks, &witness);
     let _ = std::fs::remove_file(&marks);
     if r.samples.len() < 4 {
@@ -897,31 +1215,127 @@ fn judge(
 
     // ---- (2) marks file
     let text = std::fs::read_to_string(marks).unwrap_or_default();
+    // who ran which command, and which commands may legitimately have been killed before their END
+    // (task cancelled, tool timed out): those never stay "open", but their own BEGIN is judged like any other
+    let mut mark_actor: HashMap<String, String> = HashMap::new();
+    let mut may_be_killed: std::collections::HashSet<String> = Default::default();
+    for o in outs {
+        for (tid, mark, cancelled) in &o.task_marks {
+            mark_actor.insert(mark.clone(), tid.clone());
+            if *cancelled {
+                may_be_killed.insert(mark.clone());
+            }
+        }
+        for run in &o.runs {
+            for op in &run.ops {
+                if let Op::Bash { mark, timeout_ms, .. } = op {
+                    mark_actor.insert(mark.clone(), run.session_id.clone());
+                    if timeout_ms.is_some() {
+                        may_be_killed.insert(mark.clone());
+                    }
+                }
+            }
+        }
+        for (phase, st) in &o.cancels {
+            r.count(&format!("task_cancels_sent/{phase}"), 1);
+            let _ = st;
+        }
+        for st in &o.session_cancels {
+            r.count(&format!("session_handles_dropped/http_{st}"), 1);
+        }
+    }
+    // One signature for every overlap in which the command of a bash tool that hit its `timeout_ms` takes part:
+    // whoever it meets (bash, task, write, ...) it is the same fault class (command not reaped by the tool).
+    const TIMED_OUT: &str = "session_bash_timed_out";
+    const OUTLIVES: &str = "C11/mutations_overlap/command_of_timed_out_bash_tool_still_running";
+    let cls = |s: &str| {
+        if s.starts_with("tk-") {
+            "task"
+        } else if s.starts_with("sbt-") {
+            TIMED_OUT
+        } else {
+            "session_bash"
+        }
+    };
+    struct Bracket {
+        id: String,
+        begin_ns: u128,
+        end_ns: Option<u128>,
+    }
+    let lines: Vec<(&str, String, u128)> = text
+        .lines()
+        .map(|l| {
+            let mut it = l.split(' ');
+            (it.next().unwrap_or(""), it.next().unwrap_or("").to_string(), it.next().and_then(|x| x.parse().ok()).unwrap_or(0))
+        })
+        .collect();
+    let ended: std::collections::HashSet<&str> = lines.iter().filter(|l| l.0 == "END").map(|l| l.1.as_str()).collect();
     let mut open: Vec<String> = Vec::new();
-    let mut brackets = 0u64;
-    for line in text.lines() {
-        let mut it = line.split(' ');
-        let (what, id) = (it.next().unwrap_or(""), it.next().unwrap_or("").to_string());
-        match what {
+    let mut brackets: Vec<Bracket> = Vec::new();
+    let mut cut = 0u64;
+    for (what, id, ns) in &lines {
+        match *what {
             "BEGIN" => {
                 if let Some(other) = open.last() {
-                    let cls = |s: &str| if s.starts_with("tk-") { "task" } else { "session_bash" };
-                    let (a, b) = (cls(other), cls(&id));
+                    let (a, b) = (cls(other), cls(id));
                     let (a, b) = if a <= b { (a, b) } else { (b, a) };
+                    let sig = if a == TIMED_OUT || b == TIMED_OUT { OUTLIVES.to_string() } else { format!("C11/mutations_overlap/marks/{a}+{b}") };
                     r.violation(
-                        &format!("C11/mutations_overlap/marks/{a}+{b}"),
+                        &sig,
                         &format!("shell commands of two actors ran at the same time in the workspace: {id} began before {other} ended (O_APPEND marks file)"),
                         witness(json!({"marks": text.lines().take(40).collect::<Vec<_>>() })),
                     );
                 }
-                open.push(id);
-                brackets += 1;
+                if !ended.contains(id.as_str()) && may_be_killed.contains(id) {
+                    cut += 1; // killed between BEGIN and END: closed for whoever begins later
+                } else {
+                    open.push(id.clone());
+                }
+                brackets.push(Bracket { id: id.clone(), begin_ns: *ns, end_ns: None });
             }
-            "END" => open.retain(|x| *x != id),
+            "END" => {
+                open.retain(|x| x != id);
+                if let Some(b) = brackets.iter_mut().rev().find(|b| b.id == *id) {
+                    b.end_ns = Some(*ns);
+                }
+            }
             _ => {}
         }
     }
-    r.count("mark_brackets", brackets);
+    r.count("mark_brackets", brackets.len() as u64);
+    r.count("mark_brackets_cut_by_a_kill_before_end", cut);
+    let begun_marks: std::collections::HashSet<&str> = brackets.iter().map(|b| b.id.as_str()).collect();
+    r.count("cancelled_or_timed_out_commands_with_no_begin_mark", may_be_killed.iter().filter(|m| !begun_marks.contains(m.as_str())).count() as u64);
+    r.count("cancelled_or_timed_out_commands_that_ran_to_their_end_mark", may_be_killed.iter().filter(|m| ended.contains(m.as_str())).count() as u64);
+
+    // ---- (2b) marks x hook: a command's bracket must not intersect the ws.exec interval of another
+    // actor's mutating execution (same system-wide monotonic clock; in a correct execution a command
+    // lies inside its own actor's interval, and the intervals of mutating executions are disjoint)
+    for m in &brackets {
+        let Some(actor) = mark_actor.get(&m.id) else {
+            continue;
+        };
+        let m_end = m.end_ns.unwrap_or(m.begin_ns);
+        if m.begin_ns == 0 {
+            continue;
+        }
+        r.count("mark_brackets_crossed_with_hook_intervals", 1);
+        for b in begins.iter().filter(|b| !is_read_only(&b.tool) && b.actor != *actor) {
+            if b.begin_ns < m_end && m.begin_ns < b.end_ns.unwrap_or(u128::MAX) {
+                let sig = if cls(&m.id) == TIMED_OUT { OUTLIVES.to_string() } else { format!("C11/mutations_overlap/marks_vs_hook/{}+{}", cls(&m.id), b.tool) };
+                r.violation(
+                    &sig,
+                    &format!(
+                        "the shell command {} was running (BEGIN..END marks) during the mutating execution '{}' of another actor (ws.exec.begin..end)",
+                        m.id, b.tool
+                    ),
+                    witness(json!({"command": m.id, "command_begin_ns": m.begin_ns.to_string(), "command_end_ns": m.end_ns.map(|x| x.to_string()),
+                                   "other": format!("{} {}", b.actor, b.tool), "other_begin_ns": b.begin_ns.to_string(), "other_end_ns": b.end_ns.map(|x| x.to_string()),
+                                   "marks": text.lines().take(40).collect::<Vec<_>>() })),
+                );
+            }
+        }
+    }
 
     // ---- (3) thread oracle over the log written by this case
     let bytes = cx.world.as_ref().map(|w| w.store.log_bytes_settled()).unwrap_or_default();
@@ -949,6 +1363,7 @@ fn judge(
     }
     let mut sfx: Vec<Sfx> = Vec::new();
     let mut run_ended: HashMap<String, usize> = HashMap::new();
+    let mut task_status: HashMap<String, String> = HashMap::new();
     for f in &frames {
         match f.ty() {
             "tool_started" => started.entry(f.stream_id().to_string()).or_default().push(Started {
@@ -972,10 +1387,27 @@ fn judge(
             "continuity_run_ended" => {
                 run_ended.insert(f.s("run_session_id").to_string(), f.line_no);
             }
+            "tool_task_status" => {
+                // the last one of a task is its terminal status
+                task_status.insert(f.s("task_id").to_string(), f.s("status").to_string());
+            }
             _ => {}
         }
     }
     r.count("side_effects_frames", sfx.len() as u64);
+    r.count(
+        "tool_calls_failed_with_timeout",
+        frames.iter().filter(|f| f.ty() == "tool_failed" && f.s("error") == "timeout").count() as u64,
+    );
+    for o in outs {
+        for (tid, _, cancelled) in &o.task_marks {
+            let st = task_status.get(tid).map(|x| x.as_str()).unwrap_or("none");
+            r.count(&format!("task_terminal_status/{}/{st}", if *cancelled { "cancel_sent" } else { "no_cancel" }), 1);
+            if !matches!(st, "exited" | "cancelled" | "failed") {
+                r.inconclusive(&format!("case {idx}: task snapshot written but last tool_task_status is '{st}'"));
+            }
+        }
+    }
     let mut known_tool_ids: HashMap<String, (String, bool)> = HashMap::new(); // tool_id -> (session, attached)
     // tool_id -> clock of its ws.exec.begin (mutating tool calls only)
     let mut begin_clock: HashMap<String, u64> = HashMap::new();
